@@ -83,7 +83,25 @@ def _c07_parts(tier):
              "per_fork": 1, "wall_s": 120 if q else 1800, "run_timeout_s": 180}]
 
 
+def _c16_parts(tier):
+    from sim.engines import media
+    q = tier == "quick"
+    return [{"engine": "media", "params": media.default_params(tier), "runs": 30_000 if q else 800_000,
+             "per_fork": 1, "wall_s": 90 if q else 1500}]
+
+
 SPECS = {
+    "C16": {
+        "level": "exploration",
+        "parts": _c16_parts,
+        "rule": "case = (class hierarchy, two access schedules); distinct = blake2b of it; non-trivial = >= 2 classes, at least one "
+                "class declares files, and the two schedules differ",
+        "real_vs_stub": {"real": ["django_components.component_media (real)", "django.forms.Media merge (real)",
+                                  "real temp directory for *_file assets"], "stub": ["none"]},
+        "no_faults_reason": "none: file-read errors are not in the statement; the schedule dimension is the order of first accesses",
+        "assumptions": ["a class without its own Media declares no files and extends all its bases (the statement's reading)",
+                        "order is checked only when the declared lists are mutually consistent"],
+    },
     "C07": {
         "level": "exploration",
         "parts": _c07_parts,
@@ -259,6 +277,13 @@ MANIFEST_META = {
                       "thread occurs in the statement, so only histories are sampled.",
         "level_note": "Trusted: dict + derived tag set as specification; private Library per registry.",
     },
+    "C16": {
+        "engine": "state-sim", "design_ref": "DESIGN.md 4/C16",
+        "technique": "deterministic simulation (history corner): seeded class hierarchies read under two different seeded "
+                     "first-access schedules on fresh class copies; set/order reference model of merged Media; shrinking + replay",
+        "level_text": "Seeded exploration of hierarchies x access schedules; differential between two schedules plus a set/order model.",
+        "level_note": "Trusted: the transcription of the statement in sim/engines/media.py (expected_media, MRO pair rule).",
+    },
     "C18": {
         "engine": "state-sim", "design_ref": "DESIGN.md 4/C18",
         "technique": "deterministic simulation: seeded get/set/has/clear histories x cache-size knob against a reference LRU; "
@@ -282,7 +307,6 @@ NOT_APPLICABLE = {
     "C12": "totality and a time bound of pure parsing functions: input fuzzing / performance, about which deterministic "
            "simulation decides nothing",
     "C13": "escaping, merge order and end-tag refusal are pure functions of the given dicts and strings",
-    "C16": "not claimed yet (build in progress)",
     "C17": "what the finder exposes is a pure function of (directory tree, settings, lookup path); read-only single-shot scan, "
            "nothing carried between calls, insensitive to listing order",
     "C20": "get_component_files is a pure function of (directory tree, settings); read-only single-shot scan",
